@@ -65,10 +65,16 @@ def generate(rng, n, tier):
         for kind in ("field", "arith", "function", "case"):
             for op in ("union", "intersect"):
                 yield {"cls": cls, "kind": kind, "shape": 0, "positions": ["setop_orderby"], "alias": "al", "setop": op}
+                # … and not to an alias that no operand selects (the term itself is then the ORDER BY key)
+                yield {"cls": cls, "kind": kind, "shape": 0, "positions": ["setop_orderby"], "alias": "al", "setop": op, "unselected": True}
     # a star select removes (or blocks) the aliased column: GROUP BY / ORDER BY must then refer to the column, not the alias
     for cls in QNAMES:
         for variant in range(4):
             yield {"cls": cls, "kind": "field", "shape": 0, "positions": ["star_prunes"], "alias": "al", "variant": variant}
+    # an alias spelled like the column itself (`t.a.as_('a')`): still a definition — GROUP BY / ORDER BY refer to it by that name
+    for cls in QNAMES:
+        for variant in range(3):
+            yield {"cls": cls, "kind": "field", "shape": 0, "positions": ["same_name"], "alias": "a", "variant": variant}
     for _ in range(n):
         k = rng.randint(2, 4)
         yield {"cls": rng.choice(list(QNAMES)), "kind": rng.choice(list(KINDS)), "shape": rng.randint(0, 1),
@@ -112,6 +118,15 @@ def build(case):
                  ".select(t.star).select(e).groupby(e).orderby(e)", ".select(e, t.b).groupby(e).select('*').orderby(e)"][v]
         lines.append("q = %s.from_(t)%s" % (qn, chain))
         return "\n".join(lines)
+    if pos == ["same_name"]:
+        chain = [".select(e, t.b).orderby(e)", ".join(u).on(t.b == u.b).select(e, u.a.as_('ua')).orderby(e)",
+                 ".select(e, fn.Sum(t.x).as_('s')).groupby(e)"][case.get("variant", 0)]
+        lines.append("q = %s.from_(t)%s" % (qn, chain))
+        return "\n".join(lines)
+    if pos == ["setop_orderby"] and case.get("unselected"):
+        lines.append("q = %s.from_(t).select(t.b, t.a).%s(%s.from_(u).select(u.b, u.a)).orderby(e)"
+                     % (qn, case.get("setop", "union"), qn))
+        return "\n".join(lines)
     if pos == ["setop_orderby"]:
         lines.append("q = %s.from_(t).select(t.b, e).%s(%s.from_(u).select(u.b, u.a.as_(%r))).orderby(e)"
                      % (qn, case.get("setop", "union"), qn, case["alias"]))
@@ -139,6 +154,8 @@ def examine(case):
         return examine_setop(dict(case, positions=pos))
     if pos == ["star_prunes"]:
         return examine_star(dict(case, positions=pos))
+    if pos == ["same_name"]:
+        return examine_same_name(dict(case, positions=pos))
     selected = any(p in pos for p in ("select", "groupby_sel", "orderby_sel"))
     if selected:
         pos = [p for p in pos if p not in ("groupby_unsel", "orderby_unsel")] + \
@@ -276,7 +293,7 @@ def examine_setop(case):
     b = q.base_query
     cls = case["cls"]
     res.nontrivial = True
-    res.key = struct_hash(["setop", case["kind"], cls, case.get("setop")])
+    res.key = struct_hash(["setop", case["kind"], cls, case.get("setop"), bool(case.get("unselected"))])
     res.tags = ["kind=" + case["kind"], "cls=" + cls, "pos=setop_orderby"]
     try:
         res.requests.append(({"op": "render", "ctx": describe.d_ctx({}), "term": describe.describe(q)}, {"sql": text}, "str(set operation)"))
@@ -289,6 +306,11 @@ def examine_setop(case):
         return res
     occ = [t for t in toks if t.kind == "id" and t.val == case["alias"]]
     aq = b.ALIAS_QUOTE_CHAR or b.QUOTE_CHAR
+    if case.get("unselected"):
+        if occ:
+            res.findings.append({"sig": {"kind": "alias-referenced-but-not-defined", "term": case["kind"], "where": "setop"},
+                                 "what": "ORDER BY of the set operation refers to the alias %r that no operand selects | %s" % (case["alias"], text)})
+        return res
     if len(occ) != 3:
         res.findings.append({"sig": {"kind": "alias-count", "term": case["kind"], "where": "setop"},
                              "what": "alias occurs %d times, expected 2 definitions + 1 reference | %s" % (len(occ), text)})
@@ -299,6 +321,41 @@ def examine_setop(case):
                                  "what": "alias %s quoted %r, the %s alias convention is %r | %s"
                                          % ("reference in ORDER BY" if i == 2 else "definition", t.quote, cls, aq, text)})
             break
+    return res
+
+
+def examine_same_name(case):
+    """an alias spelled like its column: the select list still defines it (column, then the alias), later clauses refer to it"""
+    res = Result()
+    src = build(case)
+    case["recipe"] = src
+    q = ns.ex(src)["q"]
+    text = str(q)
+    res.nontrivial = True
+    res.key = struct_hash(["same-name", case["cls"], case.get("variant")])
+    res.tags = ["kind=field", "cls=" + case["cls"], "pos=same_name"]
+    try:
+        res.requests.append(({"op": "render", "ctx": describe.d_ctx({"dialect": q.dialect}), "term": describe.describe(q)},
+                             {"sql": text}, "str(statement)"))
+    except Unsupported as ex:
+        res.skipped = str(ex)[:40]
+    try:
+        toks = sqlspec.lex(text, ident_quotes='"`')
+    except sqlspec.LexError as ex:
+        res.findings.append({"sig": {"kind": "lex", "term": "field"}, "what": "unlexable: %s | %s" % (ex, text)})
+        return res
+    # first select item: [qualifier .] a [AS] a
+    ids = []
+    for t in toks[1:]:
+        if t.kind == "p" and t.val == ",":
+            break
+        if t.kind == "kw" and t.val == "FROM":
+            break
+        if t.kind == "id":
+            ids.append(t.val)
+    if ids[-2:] != ["a", "a"]:
+        res.findings.append({"sig": {"kind": "alias-position", "term": "field"},
+                             "what": "the alias 'a' of column a is not defined in the select list | %s | %s" % (text, src)})
     return res
 
 
